@@ -42,7 +42,8 @@ TREES = (
     "((a:0.1,b:0.2):0.05,c:0.3,d:0.15);",
     "((a:0.1,b:0.2):0.05,(c:0.3,d:0.15):0.07,e:0.2);",
 )
-MODELS = ("HKY85", "HKY85", "F81", "GTR", "HKY85+G", "TN93", "GN", "HKY85+mp", "HKY85@2loci", "GTR@2loci")
+MODELS = ("HKY85", "HKY85", "F81", "GTR", "HKY85+G", "TN93", "GN", "HKY85+mp", "HKY85@2loci", "GTR@2loci",
+          "HKY85", "GTR", "HKY85+G", "HKY85@2loci", "HKY85+free")
 LOCI = ["l0", "l1"]
 
 
@@ -176,6 +177,8 @@ def get_sm(name):
     if name not in _MODEL_CACHE:
         if name == "HKY85+G":
             _MODEL_CACHE[name] = get_model("HKY85", ordered_param="rate", distribution="gamma")
+        elif name == "HKY85+free":
+            _MODEL_CACHE[name] = get_model("HKY85", ordered_param="rate", distribution="free")
         elif name == "HKY85+mp":
             _MODEL_CACHE[name] = get_model("HKY85", optimise_motif_probs=True)
         elif name.endswith("@2loci"):
@@ -219,7 +222,7 @@ def make_aln(plan, which=0):
 
 def new_lf(plan, aln, tree):
     sm = get_sm(plan["model"])
-    kw = {"bins": 3} if plan["model"] == "HKY85+G" else {}
+    kw = {"bins": 3} if plan["model"] == "HKY85+G" else {"bins": 2} if plan["model"] == "HKY85+free" else {}
     if plan["model"].endswith("@2loci"):
         kw["loci"] = list(LOCI)  # aln is then a list, one alignment per locus
     lf = sm.make_likelihood_function(tree, **kw)
@@ -277,9 +280,16 @@ def apply_lf_op(ctx: Ctx, op, res: RunResult, in_batch=False):
                 how = "init"
             elif op["frac"] < 0.3:
                 lf.set_param_rule(par, loci=list(LOCI), is_independent=True, init=val)
+            elif op["frac"] < 0.6:
+                # scoped by edge and locus at once: what is left is not a cross-product
+                lf.set_param_rule(par, edges=edges, locus=LOCI[op["par"] % 2], init=val)
             else:
                 lf.set_param_rule(par, locus=LOCI[op["par"] % 2], is_constant=op["frac"] > 0.8, **(
                     {"value": val} if op["frac"] > 0.8 else {"init": val}))
+        if how == "edges" and ctx.plan["model"] == "HKY85+G" and op["frac"] > 0.6:
+            # scoped by edge and bin at once
+            lf.set_param_rule(par, edges=edges, bin=lf.bin_names[op["par"] % len(lf.bin_names)], init=val)
+            return "rule:edges+bin"
         if how == "init":
             lf.set_param_rule(par, init=val)
         elif how == "const":
@@ -310,6 +320,11 @@ def apply_lf_op(ctx: Ctx, op, res: RunResult, in_batch=False):
         mp = {b: v / tot for b, v in zip("ACGT", op["vals"])}
         if ctx.plan["model"].startswith("MG94"):
             return "skip"
+        if ctx.plan["model"] == "HKY85+free" and op["vals"][0] < 0.5:
+            # the free parameters behind the per-bin rates
+            v = 0.1 + 0.8 * op["vals"][1]
+            lf.set_param_rule("rate_partition", init=[v, 1.0 - v])
+            return "rate_partition"
         if ctx.plan["model"].endswith("@2loci") and op["vals"][0] < 0.5:
             lf.set_motif_probs(mp, locus=LOCI[op["vals"][1] < 0.5])
             return "mprobs"
@@ -407,6 +422,12 @@ def run_lf(plan, res: RunResult):
             if floored and recomputed is not None and numpy.isclose(recomputed, got, rtol=1e-12, atol=0):
                 # not a stale cache: get_param_rules() floors exported probabilities at 1e-6
                 cls = "C07.rules-roundtrip/minprob-floor"
+            elif (plan["model"] == "HKY85+free" and recomputed is not None
+                  and numpy.isclose(recomputed, got, rtol=1e-12, atol=0)
+                  and not any(r["par_name"] == "rate_partition" for r in rules)):
+                # not a stale cache either: the partition behind a "free" rate distribution
+                # is not a user parameter and is missing from the exported rules (C07-K3)
+                cls = "C07.rules-roundtrip/free-partition-not-exported"
             res.add(cls,
                     f"lnL={got!r} but a new function with the same rules gives {want!r} (diff {got - want:.3e}) "
                     f"after {trace}; after forcing a full recomputation the function itself reports {recomputed!r}; "
